@@ -34,7 +34,13 @@ def funcs(kind, dim, vdim):
     def const(x):          # zero output scale
         return 1.0
 
-    f = {"smooth": base, "steep": steep, "const": const}[kind]
+    def ramp(x):           # the first two corners (sorted order) span the whole output range: later corners do not
+        return float(x[-1])  # grow it, so no tell recomputes all losses (and none builds the triangulation itself)
+
+    def slow(x):           # slowly varying around a large offset: whether a tell grows the range by 10 % depends on the order
+        return 5.0 + 0.001 * float(x[0]) + 0.01 * float(x[-1])
+
+    f = {"smooth": base, "steep": steep, "const": const, "ramp": ramp, "slow": slow}[kind]
     if vdim == 1:
         return f
     return lambda x: [f(x) * (k + 1) + k * float(x[-1]) for k in range(vdim)]
@@ -109,7 +115,7 @@ def gen_config(rng):
     bounds = rng.randrange(len(RECTS[dim])) if domain == "rect" else \
         rng.choice([k[1] for k in HULLS if k[0] == dim])
     return {"dim": dim, "domain": domain, "bounds": RECTS[dim][bounds] if domain == "rect" else bounds,
-            "func": rng.choice(["smooth", "smooth", "steep", "const"]), "vdim": rng.choice([1, 1, 2]),
+            "func": rng.choice(["smooth", "smooth", "steep", "const", "ramp", "slow"]), "vdim": rng.choice([1, 1, 2]),
             "loss": rng.choice(["default", "default", "uniform"])}
 
 
@@ -156,6 +162,7 @@ class Oracle:
         self.f5_trigger = None        # step at which remove_unfinished dropped sub-triangulations
         self.f12_trigger = None       # step at which a pending point on a shared face was not registered
         self.multipliers = [1]
+        self.last_loss = None         # loss() as read first thing after the latest operation
         self.born = {}                # simplex -> index into multipliers at creation
         self.extent = [float(b[1] - b[0]) for b in learner._bbox]
         # the corners of the domain, independently of the learner: the box corners / the hull's vertices
@@ -166,7 +173,7 @@ class Oracle:
         if cfg["domain"] == "hull":
             import scipy.spatial
             self.hull_eq = scipy.spatial.ConvexHull(np.array(HULLS[(cfg["dim"], cfg["bounds"])], dtype=float)).equations
-        self.stats = {"worst_checked": 0, "subtri_checked": 0, "losses_checked": 0, "asks": 0}
+        self.stats = {"worst_checked": 0, "subtri_checked": 0, "losses_checked": 0, "asks": 0, "tri_first_built_by_loss": 0}
 
     # -- helpers -----------------------------------------------------------
     def err(self, clause, msg, step):
@@ -183,15 +190,40 @@ class Oracle:
         return a is not None and all(x >= -tol for x in a) and sum(a) <= 1 + tol
 
     # -- state -------------------------------------------------------------
+    def enough_points(self):
+        """exact: do the evaluated in-domain points contain dim+1 affinely independent ones (with a clear margin)?"""
+        P = [X.fr_point(p) for p in self.l.data if self.in_domain(p)]
+        d = self.dim
+        if len(P) <= d:
+            return False
+        unit = Fr(1)
+        for e in self.extent:
+            unit *= Fr(e)
+        for comb in itertools.islice(itertools.combinations(P, d + 1), 3000):
+            if abs(X.volume(list(comb))) > unit / 10 ** 6:
+                return True
+        return False
+
     def check_state(self, step):
         l = self.l
+        # FIRST thing after every operation, before anything else is read from the learner: the reported loss, as a
+        # runner's goal reads it.  (LearnerND.tri is built lazily; reading it here first would hide a loss() that
+        # does not see the points told so far.)
+        lazy = l._tri is None      # a plain attribute: reading it builds nothing
+        got = l.loss()
+        self.last_loss = got
+        if lazy and l._tri is not None:
+            self.stats["tri_first_built_by_loss"] += 1     # the operation made a triangulation possible but did not build it
         m = l._output_multiplier
         if m != self.multipliers[-1]:
             self.multipliers.append(m)
-        tri = l.tri          # the Runner touches loss() after every tell; this creates the triangulation when possible
+        tri = l.tri
         if tri is None:
-            if l.loss() != float("inf"):
-                self.err("loss_is_max", f"loss() = {l.loss()} without a triangulation", step)
+            if got != float("inf"):
+                self.err("loss_is_max", f"loss() = {got} without a triangulation", step)
+            if self.enough_points():
+                self.err("tri_when_enough_points", f"{len(l.data)} points are evaluated, {self.dim + 1} of them affinely independent "
+                                                   f"and inside the domain, but the learner has no triangulation", step)
             return
         verts = [tup(v) for v in tri.vertices]
         known = [tup(p) for p in l.data if self.in_domain(p)]
@@ -227,9 +259,12 @@ class Oracle:
                 self.err("loss_from_data", f"_losses[{s}] = {lossd[s]!r} is not loss_per_simplex of the simplex's data "
                                            f"(current scale gives {float(self.lossfn(vs, m * vals, m))!r})", step)
         expect = max(lossd.values()) if lossd else float("inf")
-        got = l.loss()
         if got != expect:
-            self.err("loss_is_max", f"loss() = {got!r}, largest simplex loss = {expect!r}", step)
+            self.err("loss_is_max", f"loss() = {got!r} read right after the operation, but enough points are known: the triangulation "
+                                    f"of the data has {len(S)} simplices and the largest simplex loss is {expect!r}", step)
+        again = l.loss()
+        if again != expect:
+            self.err("loss_is_max", f"loss() = {again!r}, largest simplex loss = {expect!r}", step)
         self.check_subtris(step, tri, lossd)
 
     def check_subtris(self, step, tri, lossd):
@@ -441,7 +476,7 @@ def drive(cfg, hist=None, rng=None, concrete=None, hooks=None):
             if hooks:
                 hooks.end(l, ("touch",), None, None if not stop else ("Exception", ""))
                 if not stop:
-                    hooks.observe(l)
+                    hooks.observe(l, orc.last_loss)
 
     if concrete is not None:
         for op in concrete:
@@ -630,7 +665,8 @@ class LNDHooks:
             out = ("ret", [])
         self.steps.append({"op": op, "env": c, "out": out, "obs": None})
 
-    def observe(self, l):
+    def observe(self, l, first_loss=None):
+        """`first_loss`: what loss() returned when it was the first thing read after the operation"""
         t = l._tri
         obs = {"data": [self.id_of(p) for p in l.data],
                "pend": sorted(self.id_of(p) for p in l.pending_points),
@@ -639,5 +675,5 @@ class LNDHooks:
                "subs": sorted((simp(k), ([self.id_of(v) for v in st.vertices], sorted(simp(u) for u in st.simplices)))
                               for k, st in l._subtriangulations.items()),
                "queue": [(float(a), simp(b), None if c_ is None else simp(c_)) for a, b, c_ in l._simplex_queue],
-               "loss": float(l.loss())}
+               "loss": float(l.loss() if first_loss is None else first_loss)}
         self.steps[-1]["obs"] = obs
